@@ -28,7 +28,9 @@ RULE = ("1-4 destinations (one always-healthy reference at a random position, th
         "destinations (some failing) are added and a second program runs: the same accounting over re-delivered and later messages. "
         "part 'threads': 2-3 threads log while 1-2 destinations fail, under the line-granular scheduler (LINE events on "
         "eliot/_output.py), all one-preemption schedules per priority order + sampled deeper ones: every destination is offered the "
-        "same set of messages once, per-thread order kept, every failed delivery reported exactly once. A quarter of the random programs run inside an action bound to a logger object of its "
+        "same set of messages once, per-thread order kept, every failed delivery reported exactly once. part 'reentrant': destinations that log while handling a message (a relay answering "
+        "with a message of its own, a FileDestination whose json_default logs a diagnostic, optionally a failing one in between) run as a one-thread "
+        "schedule: no self-deadlock, every destination offered every outer and nested message exactly once, reports == failed deliveries. A quarter of the random programs run inside an action bound to a logger object of its "
         "own, half of the hand-overs happen inside an open action. non-trivial = >=2 faulty destinations or a mask that hits a report; distinct by (program shape, masks)")
 ASSUMPTIONS = ["destinations raise Exception subclasses", "under concurrency only per-destination sets, per-thread order and report counts are judged "
                "(destinations may legitimately see different total orders)"]
@@ -51,6 +53,8 @@ def plan(tier, seed):
         specs.append({"part": "prebuffered", "seed": seed, "i": j})
     for j in range(16 if tier == "quick" else 200):
         specs.append({"part": "threads", "seed": seed, "i": j, "tier": tier})
+    for j in range(300 if tier == "quick" else 3000):
+        specs.append({"part": "reentrant", "seed": seed, "i": j})
     return specs
 
 
@@ -143,6 +147,11 @@ def run_with(dests_spec, body, res, label, shape):
         if d[0] == "ref":
             obj = MaskedDestination(tape, "ref", lambda i: False, None)
             names.append("ref")
+        elif d[0] == "closed":
+            from vf.tape import ClosedFileDestination
+            name = "bad%d" % j
+            obj = ClosedFileDestination(tape, name)
+            names.append(name)
         else:
             name = "bad%d" % j
             obj = MaskedDestination(tape, name, d[1], d[2])
@@ -157,19 +166,22 @@ def run_with(dests_spec, body, res, label, shape):
         problems.append("logging raised %r" % (e,))
     finally:
         for d in dests:
-            remove_destination(d)
+            try:
+                remove_destination(d)
+            except ValueError:
+                problems.append("destination %s is no longer registered at the end although the program never removed it" % getattr(d, "name", d))
     failures, hits_report = account(tape, names, "ref", problems)
     c = res["counters"]
     c["offers_checked"] = c.get("offers_checked", 0) + sum(1 for e in tape.entries if e["k"] == "msg")
     c["failed_deliveries"] = c.get("failed_deliveries", 0) + failures
     c["failures_while_delivering_reports"] = c.get("failures_while_delivering_reports", 0) + hits_report
     res["evals"] += 1
-    nbad = sum(1 for d in dests_spec if d[0] == "bad")
+    nbad = sum(1 for d in dests_spec if d[0] in ("bad", "closed"))
     if failures and (nbad >= 2 or hits_report):
-        res["nontrivial"].append(h([shape, [d[3] for d in dests_spec if d[0] == "bad"], label]))
+        res["nontrivial"].append(h([shape, [d[3] for d in dests_spec if d[0] in ("bad", "closed")], label]))
     if problems:
         res["violations"].append({"msg": problems[0], "mech": None, "detail": {"label": label, "problems": problems[:10],
-                                                                               "masks": [d[3] for d in dests_spec if d[0] == "bad"], "shape": shape}})
+                                                                               "masks": [d[3] for d in dests_spec if d[0] in ("bad", "closed")], "shape": shape}})
     return tape
 
 
@@ -258,10 +270,113 @@ def part_prebuffered(spec, res):
     c["offers_checked"] = c.get("offers_checked", 0) + sum(1 for e in tape.entries if e["k"] == "msg")
     res["evals"] += 1
     if failures:
-        res["nontrivial"].append(h(["pre", gen.prog_shape(p1), gen.prog_shape(p2), [d[3] for d in dspec if d[0] == "bad"]]))
+        res["nontrivial"].append(h(["pre", gen.prog_shape(p1), gen.prog_shape(p2), [d[3] for d in dspec if d[0] in ("bad", "closed")]]))
     if problems:
         res["violations"].append({"msg": problems[0], "mech": None, "detail": {"label": "prebuffered", "problems": problems[:8], "buffered_program": p1,
-                                                                               "later_program": p2, "masks": [d[3] for d in dspec if d[0] == "bad"]}})
+                                                                               "later_program": p2, "masks": [d[3] for d in dspec if d[0] in ("bad", "closed")]}})
+
+
+class Payload(object):
+    def __init__(self, v):
+        self.v = v
+
+
+def part_reentrant(spec, res):
+    """Destinations that themselves log while they handle a message: a relay that answers selected messages with a message of
+    its own, a file destination whose json_default logs a diagnostic for every value it has to convert, an exception-raising one
+    in between. Run as the only registered thread of a schedule, so that re-entering the output stage on a lock the thread already
+    holds is a verdict. Every destination is offered every message - the program's and the nested ones - exactly once."""
+    import json as _json
+    from eliot import FileDestination
+    from eliot.json import json_default
+    from vf.tape import RecordingFile
+    rng = random.Random("%s:C08:re:%d" % (spec["seed"], spec["i"]))
+    tape = Tape()
+    ref = Recorder(tape, "ref", deep=False)
+    nmsg = rng.randint(2, 8)
+
+    def relay(m):
+        tape.add("msg", dest="relay", m=dict(m))
+        if m.get("message_type") == "re:ping" and m["nid"] % 2 == 0:
+            log_message(message_type="re:pong", about=m["nid"])
+
+    def logging_default(o):
+        if isinstance(o, Payload):
+            log_message(message_type="re:diag", converted=o.v)
+            return {"payload": o.v}
+        return json_default(o)
+    rf = RecordingFile("b")
+    filedest = FileDestination(file=rf, json_default=logging_default)
+    dests = [relay, filedest, ref]
+    with_bad = rng.random() < 0.4
+    if with_bad:
+        dests.append(MaskedDestination(tape, "bad", (lambda i: i % 3 == 1), (lambda i: excs.DestFault("re-entrant part, call %d" % i))))
+    rng.shuffle(dests)
+    payload_nids = set()
+
+    def body():
+        with start_action(action_type="re:act", nid=0):
+            for k in range(1, nmsg + 1):
+                if rng.random() < 0.5:
+                    payload_nids.add(k)
+                    log_message(message_type="re:ping", nid=k, data=Payload(k))
+                else:
+                    log_message(message_type="re:ping", nid=k)
+    add_destinations(*dests)
+    try:
+        st, errs = sched.run_schedule({"order": ["main"], "changes": []}, {"main": body}, timeout=120.0)
+    finally:
+        for d in dests:
+            try:
+                remove_destination(d)
+            except ValueError:
+                pass
+    problems = ["logging raised %r" % (e,) for e in errs.values()]
+    if st["deadlock"]:
+        problems.append("a destination that logs while handling a message blocked the output stage: %s" % st["deadlock"])
+    elif st["aborted"]:
+        res["inconclusive"] = "re-entrant run abandoned: %s" % st["aborted"]
+    else:
+        def keys_of(msgs):
+            out = []
+            for m in msgs:
+                t = m.get("message_type") or (m.get("action_type"), m.get("action_status"))
+                if t == "eliot:destination_failure":
+                    continue
+                out.append((str(t), m.get("nid"), m.get("about"), m.get("converted")))
+            return out
+        want = [("('re:act', 'started')", 0, None, None), ("('re:act', 'succeeded')", None, None, None)]
+        want += [("re:ping", k, None, None) for k in range(1, nmsg + 1)]
+        want += [("re:pong", None, k, None) for k in range(1, nmsg + 1) if k % 2 == 0]
+        want += [("re:diag", None, None, k) for k in sorted(payload_nids)]
+        per = {"relay": keys_of(e["m"] for e in tape.entries if e["k"] == "msg" and e["dest"] == "relay"),
+               "ref": keys_of(e["m"] for e in tape.entries if e["k"] == "msg" and e["dest"] == "ref")}
+        lines = []
+        for op in rf.ops:
+            if op[0] == "write" and op[1]:
+                try:
+                    lines.append(_json.loads(bytes(op[1]).decode("utf-8")))
+                except Exception as e:
+                    problems.append("file destination wrote a line that is not JSON: %r" % (e,))
+        per["file"] = keys_of(lines)
+        for name, got in per.items():
+            if sorted(map(repr, got)) != sorted(map(repr, want)):
+                missing = [w for w in want if got.count(w) < 1]
+                dup = [g for g in set(got) if got.count(g) > 1]
+                problems.append("destination %s was offered %d messages, expected %d (missing %s, more than once %s)" % (name, len(got), len(want), missing[:4], dup[:4]))
+        if with_bad:
+            nfail = sum(1 for e in tape.entries if e["k"] == "msg" and e["dest"] == "bad" and e.get("failed") and e["m"].get("message_type") != "eliot:destination_failure")
+            nrep = sum(1 for e in tape.entries if e["k"] == "msg" and e["dest"] == "ref" and e["m"].get("message_type") == "eliot:destination_failure")
+            if nfail != nrep:
+                problems.append("%d failed deliveries of non-report messages but %d reports reached the healthy destination" % (nfail, nrep))
+    res["evals"] += 1
+    c = res["counters"]
+    c["reentrant_runs"] = c.get("reentrant_runs", 0) + 1
+    c["nested_messages_logged_by_destinations"] = c.get("nested_messages_logged_by_destinations", 0) + len(payload_nids) + nmsg // 2
+    res["nontrivial"].append(h(["re", nmsg, sorted(payload_nids), with_bad, [getattr(d, "name", getattr(d, "__name__", type(d).__name__)) for d in dests]]))
+    if problems:
+        res["violations"].append({"msg": problems[0], "mech": None, "detail": {"label": "reentrant", "problems": problems[:6], "messages": nmsg,
+                                                                               "payloads": sorted(payload_nids), "bad": with_bad}})
 
 
 def _walk(nodes):
@@ -389,6 +504,9 @@ def run_case(spec):
     if spec["part"] == "threads":
         part_threads(spec, res)
         return res
+    if spec["part"] == "reentrant":
+        part_reentrant(spec, res)
+        return res
     if spec["part"] == "random":
         for i in range(spec["lo"], spec["hi"]):
             rng = random.Random("%s:C08:%d" % (spec["seed"], i))
@@ -402,6 +520,10 @@ def run_case(spec):
                 ename, fac = faults.exc_factory(rng)
                 dspec.insert(rng.randint(0, len(dspec)), ("bad", pred, fac, desc + ":" + ename))
 
+            if rng.random() < 0.12:
+                # a file destination whose file was closed under it, registered ahead of or behind the others
+                dspec.insert(rng.randint(0, len(dspec)), ("closed", None, None, "closed-file"))
+                nbad += 1
             sinkbound = rng.random() < 0.25
 
             def body(tape, problems, prog=prog, sinkbound=sinkbound):
@@ -419,7 +541,7 @@ def run_case(spec):
                 problems.extend(v["msg"] for v in it.violations if v["msg"].startswith("eliot API call"))
             tape = run_with(dspec, body, res, "random", gen.prog_shape(prog))
             if res["sample"] is None and nbad and st["nodes"] <= 4:
-                res["sample"] = {"program": prog, "masks": [d[3] for d in dspec if d[0] == "bad"],
+                res["sample"] = {"program": prog, "masks": [d[3] for d in dspec if d[0] in ("bad", "closed")],
                                  "offers": [(e["dest"], e["m"].get("message_type") or e["m"].get("action_status"), e.get("failed")) for e in tape.entries if e["k"] == "msg"][:40]}
     elif spec["part"] == "enum":
         D, K = spec["D"], spec["K"]
